@@ -419,6 +419,11 @@ RuleValue(fn, n) ==
     [] fn = "nodes_open"   -> OpenNodes(n)
     [] fn = "w_closed"     -> NCWeights(n)
     [] fn = "w_open"       -> OpenNCWeights(n)
+    \* the interpolatory weights computed FROM a given node tuple (IntegratorArray.bezier_integrator_array): for the
+    \* equally spaced nodes they are the Newton-Cotes weights again - exactly for Fraction nodes, to rounding for the
+    \* same nodes given as floats - and such a request leaves the rule tables alone
+    [] fn \in {"interp_closed", "interp_closed_float"} -> NCWeights(n)
+    [] fn \in {"interp_open", "interp_open_float"}     -> OpenNCWeights(n)
     [] OTHER               -> <<>>                 \* irrational families: judged numerically by the harness
 MemoRequest ==
   \E a \in ArgsOf("MemoRequest", heap, depth) :
@@ -427,9 +432,17 @@ MemoRequest ==
      /\ ret' = Ret("ok", RuleValue(a.fn, a.n))
 
 (* ---- fitting (C11, C12): the receiving curve a gets new control points; judged by Sem clauses ----*)
+(* the normal equations of the L2 projection of C onto the spline space of V: gram[j][i] = <N_j, N_i>, rhs[i] = <C, N_i>. *)
+(* They travel with the transition: when the fitted control points are too large for TLC's integers (a WRONG fit      *)
+(* usually is), the harness plugs the observed points into these equations instead of sending them to Trace.tla         *)
+NormalEqs(C, V) ==
+  LET n == Npts(V) Z == Curve(V, Const(n, Zero), <<>>) IN
+  [rhs |-> ResidualMoments(C, Z, V), gram |-> [j \in 1..n |-> ResidualMoments(Curve(V, Unit(n, j), <<>>), Z, V)]]
 CvFitCurve ==
   \E a \in ArgsOf("CvFitCurve", heap, depth) :
-     Step([name |-> "CvFitCurve"] @@ a, heap, RetRel("ok", <<>>, "sem"))
+     Step([name |-> "CvFitCurve"] @@ a, heap,
+          RetRel("ok", IF a.nodes = <<>> /\ heap[a.obj].W = <<>> /\ a.other.W = <<>>
+                       THEN NormalEqs(a.other, heap[a.obj].U) ELSE <<>>, "sem"))
 CvFitInRational ==   \* S.fit_curve(q) with S rational and q in S's space: the result is q as a function, error 0
   \E a \in ArgsOf("CvFitInRational", heap, depth) :
      Step([name |-> "CvFitInRational"] @@ a, heap, RetRel("ok", <<>>, "sem"))
